@@ -299,6 +299,8 @@ fn histories<K: BoolKind>(threads: u32, depth: usize, mism: &mut u64) {
                 regs[i] = Some(K::build(&mref, tabs[i].unwrap()).unwrap());
             }
             let mut dead = false;
+            // one model-count cache for the whole history (it must notice every gc and reordering itself)
+            let mut sat_cache: oxidd::util::SatCountCache<oxidd::util::num::Saturating<u64>, std::hash::BuildHasherDefault<oxidd::util::FxHasher>> = oxidd::util::SatCountCache::default();
             for &a in &acts {
                 let have = |r: usize| tabs[r].is_some();
                 let enabled = match a {
@@ -387,6 +389,12 @@ fn histories<K: BoolKind>(threads: u32, depth: usize, mism: &mut u64) {
                             d.add(f.node_count() as u64);
                             if got != Ok(t) {
                                 println!("MISMATCH {} history {acts:?} register {r}: {got:x?}, model {t:#x}", K::NAME);
+                                *mism += 1;
+                            }
+                            let cnt = f.sat_count(n, &mut sat_cache).0;
+                            d.add(cnt);
+                            if cnt != t.count_ones() as u64 {
+                                println!("MISMATCH {} history {acts:?} register {r}: sat_count with the history's cache = {cnt}, the table {t:#x} has {} models", K::NAME, t.count_ones());
                                 *mism += 1;
                             }
                         }
